@@ -19,6 +19,9 @@ A2 = [("W", 0, 12), ("ON", 0), "W", ("OFF", 0), ("W", 0, 12), ("ON", 1), "W", ("
 A2O = [("ON", 0), "W", ("ON", 1), "W", ("OFF", 0), "W", ("OFF", 1), "W"]
 ATS = [("TS", 3, 4), ("ON", 0), "W", ("OFF", 0), "W", ("KS", KEYS[4]), "W"]
 BTS = ["W", ("TS", 6, 8), ("ON", 0), "W", ("OFF", 0), ("KS", KEYS[7]), "W"]
+# signature history A, B, A across the inputs: the receiver repeats its own signature, another input changes it in between
+ATS2 = [("TS", 4, 4), ("ON", 0), "W", ("OFF", 0), "W", ("TS", 4, 4), "W"]
+BTS2 = ["W", ("TS", 3, 4), "W"]
 EMPTY = []
 REST = ["W"]
 
@@ -109,7 +112,7 @@ def queries(tier, seed):
           q_merge("1+empty", [A1, EMPTY], True, w), q_merge("empty+1", [EMPTY, A1], True, w),
           q_merge("1+rest", [A1, REST], True, w), q_merge("rest+1", [REST, A1], True, w),
           q_merge("2+1", [A2, A1], True, 6, late_first=True), q_merge("empty+2", [EMPTY, A2], True, 8, late_first=True),
-          q_merge("ts+ts", [ATS, BTS], True, min(w, 8)), q_merge("ts+ts", [ATS, BTS], False, 4 if tier == "quick" else 6)]
+          q_merge("ts+ts", [ATS, BTS], True, min(w, 8)), q_merge("aba", [ATS2, BTS2], True, min(w, 10)), q_merge("ts+ts", [ATS, BTS], False, 4 if tier == "quick" else 6)]
     if tier == "thorough":
         qs += [q_merge("2o+1", [A2O, A1], False, 6), q_merge("1+1+1", [A1, A1, A1], True, 4),
                q_merge("2+2", [A2, A2], True, 6), q_merge("2+1+rest", [A2, A1, REST], True, 6)]
